@@ -158,6 +158,9 @@ class C08(Prop):
             return queue.pop(0)
 
         self.dev.responder = responder
+        from ..monitors.keepsake import Keep
+
+        keep = Keep(limit=60)
         from aioswitcher.device import DeviceType
         from ..ref import clock
 
@@ -203,6 +206,8 @@ class C08(Prop):
                     acc.violation(f"field-wrong:{kind}:{name}", f"{kind} reply {d}: {name} = {got}, want {want}", {"kind": kind, "desc": d, "reply": reply.hex()})
                 acc.sig(env.sig(kind, sorted(d.items())))
                 acc.count(f"replies_{kind}")
+                if q % 5 != (i + 2) % 5:
+                    keep.add(resp, f"{kind} response object returned for reply #{q}")
                 if q % 5 == (i + 2) % 5:
                     # the caller writes into the object it got (an optimistic update of its own view); the device then sends the
                     # very same reply again: the new object says what the reply says
@@ -256,6 +261,8 @@ class C08(Prop):
                                   {"session": issued[n0].hex(), "got": lr.session_id})
                 acc.sig(env.sig("login", issued[n0]))
                 acc.count("replies_login")
+            # the responses returned earlier in this case were kept by the caller: later replies have not changed them
+            keep.verify(acc, "returned-response-changed-later", "the end of the connection's 24 queries")
         finally:
             await c1.close()
             await c2.close()
